@@ -438,7 +438,7 @@ ASSUMPTIONS = [
 PROBES = ["inject_in_LOCATING_SPAS", "inject_in_CONNECTING", "inject_in_CONNECTED", "inject_in_ERROR_PING_MISSED", "inject_in_ERROR_RF_FAULT",
           "inject_in_ERROR_NEEDS_ATTENTION", "inject_in_ERROR_SPA_NOT_FOUND", "inject_in_LOCATED_SPAS", "inject_in_SPA_READY"]
 EXHAUSTIVE = {"quick": False, "thorough": False}
-N_QUICK = 1260
+N_QUICK = 2520
 
 
 def jobs(tier: str, base_seed: int):
